@@ -101,6 +101,30 @@ def r_children(c):
                                "children": fmt_paths(ch)})
 
 
+_SIZE_ONLY = ("the shape of an input holds size-parameter expressions only; this mapper "
+              "looks for nothing that can occur in them")
+CUTS_REVIEWED = {
+    ("_DistributedInputReplacer", "map_placeholder"): _SIZE_ONLY + " (it replaces inputs by name)",
+    ("_DistributedInputReplacer", "map_distributed_recv"):
+        _SIZE_ONLY + " (the receive becomes a placeholder of the same shape)",
+    ("_LocalSendRecvDepGatherer", "map_data_wrapper"): _SIZE_ONLY + " (communication nodes)",
+    ("_LocalSendRecvDepGatherer", "map_placeholder"): _SIZE_ONLY + " (communication nodes)",
+    ("_LocalSendRecvDepGatherer", "map_distributed_recv"):
+        _SIZE_ONLY + " (communication nodes)",
+    ("DataWrapperDeduplicator", "map_data_wrapper"): _SIZE_ONLY + " (data wrappers)",
+    ("EinsumDistributiveLawMapper", "map_data_wrapper"): _SIZE_ONLY + " (einsums)",
+    ("EinsumDistributiveLawMapper", "map_placeholder"): _SIZE_ONLY + " (einsums)",
+    ("PlaceholderSubstitutor", "map_placeholder"):
+        "the placeholder is replaced wholesale by the caller's argument",
+    ("PlaceholderSubstitutor", "map_function_definition"):
+        "by design does not enter nested function definitions (their parameters are "
+        "another name space; R12-INLINE requires exactly this)",
+    ("TopoSortMapper", "map_function_definition"):
+        "orders the nodes of ONE name space; function bodies are ordered by a clone "
+        "where needed (class docstring: 'Does not consider the nodes inside a FunctionDefinition')",
+}
+
+
 def r_children_overrides(c):
     """handlers defined in subclasses of the families: recursing into some child
     of expr means recursing into all of them (or delegating to super())."""
@@ -110,6 +134,7 @@ def r_children_overrides(c):
     n = 0
     scope = {COPY, COPYX, COMBINE, WALK, CWALK, "pytato.transform.TransformMapper",
              "pytato.transform.TransformMapperWithExtraArgs"}
+    base_cut_flow = {}
     for mapper in m.subclasses(MAPPER, strict=True):
         if mapper in fam or not mapper.startswith("pytato."):
             continue
@@ -140,7 +165,31 @@ def r_children_overrides(c):
             hname = f"{short(mapper)}.{mm}"
             where = s.where[2]
             if not reached:
-                continue  # deliberate cut (no recursion at all)
+                # no recursion at all: a cut.  Deliberate cuts are reviewed one by one
+                # (a traversal that stops at a node must not care about anything
+                # below it); a new one is reported
+                r_fam = None
+                for f_ in m.mro(mapper):
+                    if f_ in fam and m.resolve_method(f_, mm) is not None:
+                        fb = base_cut_flow.setdefault(f_, Flow(m, f_, max_depth=8))
+                        sb = fb.handler(mm, k)
+                        r_fam = strip_markers(sb.rec_paths("expr")) if not sb.raises_only else None
+                        break
+                for path, ckind in sorted(ch.items()):
+                    if r_fam is None or not covers(path, r_fam):
+                        continue
+                    inst = f"{short(k)}.{'.'.join(path)}:cut"
+                    why_ = CUTS_REVIEWED.get((short(mapper), mm))
+                    if why_:
+                        c.exempt("R13-CHILDREN-OVR", hname, inst, where, why_)
+                    else:
+                        c.violation(
+                            "R13-CHILDREN-OVR", hname, inst, where,
+                            f"{hname} does not recurse at all, while the handler it replaces "
+                            f"hands on {'.'.join(path)} ({ckind} edge of {short(k)}): whatever "
+                            "is reachable only through that edge is invisible to "
+                            f"{short(mapper)} (an unreviewed cut)")
+                continue
             n += 1
             for path, ckind in sorted(ch.items()):
                 inst = f"{short(k)}.{'.'.join(path)}"
@@ -158,6 +207,73 @@ def r_children_overrides(c):
                         f"{'.'.join(path)} ({ckind} edge of {short(k)})",
                         facts={"reached": fmt_paths(reached)})
     c.units["override_handlers_analysed"] = n
+    # ... and overrides of the HELPERS a family handler delegates to
+    # (`self._map_index_base`, `self.rec_idx_or_size_tuple`, ...): the subclass must
+    # still hand on every child the family's own handler hands on
+    base_flow = {}
+    n2 = 0
+    for mapper in m.subclasses(MAPPER, strict=True):
+        if mapper in fam or not mapper.startswith("pytato."):
+            continue
+        if not (scope & set(m.mro(mapper))):
+            continue
+        flow = None
+        for k in kinds:
+            mm = handler_name(m, mapper, k)
+            if mm is None:
+                continue
+            owner, fd = m.resolve_method(mapper, mm)
+            if owner not in fam:
+                continue
+            helpers = {x.func.attr for x in ast.walk(fd) if isinstance(x, ast.Call)
+                       and isinstance(x.func, ast.Attribute)
+                       and isinstance(x.func.value, ast.Name) and x.func.value.id == "self"
+                       and x.func.attr not in ("rec", "combine", "visit", "post_visit")}
+            over = []
+            for h in sorted(helpers):
+                r = m.resolve_method(mapper, h)
+                if r is not None and r[0] not in fam and r[0] != MAPPER and r[0] in m.classes \
+                        and r[0] != owner and m.resolve_method(owner, h) is not None:
+                    over.append((h, r[0]))
+            if not over:
+                continue
+            ch = child_paths(m, k)
+            if not ch:
+                continue
+            if flow is None:
+                flow = Flow(m, mapper, max_depth=8)
+            if owner not in base_flow:
+                base_flow[owner] = Flow(m, owner, max_depth=8)
+            s_sub = flow.handler(mm, k)
+            s_base = base_flow[owner].handler(mm, k)
+            if s_sub.raises_only:
+                continue
+            r_sub = strip_markers(s_sub.rec_paths("expr"))
+            r_base = strip_markers(s_base.rec_paths("expr"))
+            n2 += 1
+            for path, ckind in sorted(ch.items()):
+                if not covers(path, r_base):
+                    continue
+                inst = f"{short(k)}.{'.'.join(path)}"
+                hname = f"{short(mapper)}.{mm}"
+                ex = EXEMPT.get(("R13-CHILDREN-OVR", f"{short(mapper)}/{inst}")) \
+                    or exempt_by_rule("R13-CHILDREN-OVR", short(mapper), short(k), path)
+                if covers(path, r_sub):
+                    c.ok("R13-CHILDREN-OVR", hname, inst + ":via-overridden-helper",
+                         s_sub.where[2])
+                elif ex:
+                    c.exempt("R13-CHILDREN-OVR", hname, inst + ":via-overridden-helper",
+                             s_sub.where[2], ex)
+                else:
+                    c.violation(
+                        "R13-CHILDREN-OVR", hname, inst + ":via-overridden-helper",
+                        s_sub.where[2],
+                        f"{short(owner)}.{mm} hands on {'.'.join(path)} ({ckind} edge of "
+                        f"{short(k)}) through {[h for h, _o in over]}, which "
+                        f"{[short(o) for _h, o in over]} overrides without handing it on: "
+                        f"{short(mapper)} silently skips that edge",
+                        facts={"reached": fmt_paths(r_sub), "base": fmt_paths(r_base)})
+    c.units["helper_overrides_analysed"] = n2
 
 
 # ---------------------------------------------------------------- cache rules
